@@ -405,6 +405,7 @@ class PDB:
         self.consts = j['consts']
         self.impls = j['impls']
         self.traits = j['traits']
+        self.statics = j.get('statics', {})
 
     def body(self, key):
         return self.bodies.get(key)
